@@ -252,7 +252,7 @@ func oracleSocks5Server(t failer, sel uint8, frag uint16, data []byte) (out orac
 		if herr == netio.ErrHandleStreamDone {
 			// UDP ASSOCIATE handled: a reply with the bound address was written.
 			res := useAddr(t, recS5Server, "socks5-server-udpassoc", req.Addr, req.Username, true)
-			out = oracleResult{true, req.Addr, req.Username, res}
+			out = oracleResult{accepted: true, addr: req.Addr, user: req.Username, use: res}
 			recS5Server.Case(fmt.Sprintf("assoc/%d/%s", sel&1, addrClass(req.Addr)), res.routed > 0 && len(written(srv)) > 2, append(labels, "udp-associate")...)
 			return
 		}
@@ -263,7 +263,7 @@ func oracleSocks5Server(t failer, sel uint8, frag uint16, data []byte) (out orac
 		t.Fatalf("SIG=C06/socks5-server-empty-request VERIF-VIOLATION HandleStream returned no error and no request: %s", desc())
 	}
 	res := useAddr(t, recS5Server, "socks5-server", req.Addr, req.Username, false)
-	out = oracleResult{true, req.Addr, req.Username, res}
+	out = oracleResult{accepted: true, addr: req.Addr, user: req.Username, use: res}
 	replied := false
 	guard(t, recS5Server, "socks5-server-answer", desc, func() {
 		before := len(written(srv))
